@@ -59,8 +59,20 @@ fn body_byte(i: usize) -> u8 {
     ((i * 7 + 3) % 251) as u8
 }
 
+thread_local! {
+    /// this run's endpoint is configured with a field-section limit of `SMALL_LIMIT` and the trailers are larger
+    static BIG_TRAILERS: std::cell::Cell<bool> = const { std::cell::Cell::new(false) };
+}
+pub const SMALL_LIMIT: u64 = 300;
 pub fn trailer_fields() -> Vec<Field> {
-    vec![f("x-trailer", "t1"), f("x-checksum", "abc")]
+    let mut t = vec![f("x-trailer", "t1"), f("x-checksum", "abc")];
+    if BIG_TRAILERS.with(|b| b.get()) {
+        t.push((b"x-large".to_vec(), vec![b'L'; 400]));
+    }
+    t
+}
+fn big_trailers() -> bool {
+    BIG_TRAILERS.with(|b| b.get())
 }
 
 /// bytes of a token sequence; `role_server`: the sequence is a request (else a response)
@@ -217,6 +229,9 @@ pub(crate) fn run_server(net: &Shared, rec: &Rc<RefCell<Obs>>, ex: &mut Exec, sp
     ex.spawn("srv", async move {
         let mut b = h3::server::builder();
         b.send_grease(draw(2) == 1);
+        if big_trailers() {
+            b.max_field_section_size(SMALL_LIMIT);
+        }
         let mut c = match b.build::<_, SimBuf>(conn).await {
             Ok(c) => c,
             Err(e) => {
@@ -300,6 +315,9 @@ pub(crate) fn run_client(net: &Shared, rec: &Rc<RefCell<Obs>>, ex: &mut Exec, sp
     ex.spawn("cli", async move {
         let mut b = h3::client::builder();
         b.send_grease(draw(2) == 1);
+        if big_trailers() {
+            b.max_field_section_size(SMALL_LIMIT);
+        }
         let (mut driver, mut sr) = match b.build::<_, _, SimBuf>(conn).await {
             Ok(x) => x,
             Err(e) => {
@@ -496,7 +514,10 @@ fn judge(o: &Obs, w: &RefWalk, seq: &[Tok], ending: &Ending, role_server: bool, 
                             return Err(v("C03.end_of_body_wrong", "recv_data did not end with None"));
                         }
                         let exp = if trailers_stage { Some(Ok(Some(trailer_fields()))) } else { Some(Ok(None)) };
-                        if o.trailers != exp {
+                        // trailers above the endpoint's own limit are refused on that message only (C10); the sequence
+                        // rules around them stay in force
+                        let too_big = trailers_stage && big_trailers() && matches!(o.trailers, Some(Err(SOut::HeaderTooBig(_, _))));
+                        if o.trailers != exp && !too_big {
                             return Err(v("C03.trailers_wrong", &format!("recv_trailers: expected {:?}", exp)));
                         }
                     } else if trailers_stage {
@@ -507,6 +528,7 @@ fn judge(o: &Obs, w: &RefWalk, seq: &[Tok], ending: &Ending, role_server: bool, 
                         match &o.trailers {
                             None => {}
                             Some(Ok(Some(t))) if *t == trailer_fields() => {}
+                            Some(Err(SOut::HeaderTooBig(_, _))) if big_trailers() => {}
                             x => return Err(v("C03.trailers_wrong", &format!("recv_trailers on an open stream: {:?}", x))),
                         }
                     } else {
@@ -529,7 +551,7 @@ impl Check for C03 {
     fn meta(&self) -> Meta {
         Meta {
             level: "exploration",
-            rule: "frame sequences (valid sequence + at most one inserted/replaced/removed token, over HEADERS, DATA(0), DATA(n), unknown(0/n), CANCEL_PUSH, SETTINGS, GOAWAY, MAX_PUSH_ID, PUSH_PROMISE (server), HTTP/2 types) x ending {FIN, RESET(code) at a drawn byte offset, open} x role {server, client} x the stream read whole or split() after 1-3 recv_data calls x drawn chunking, FIN timing, task order and spurious polls; non-trivial = the request stream carried at least one complete frame and at least 2 chunk deliveries or a RESET happened; distinct = distinct schedule signatures",
+            rule: "frame sequences (valid sequence + at most one inserted/replaced/removed token, over HEADERS, DATA(0), DATA(n), unknown(0/n), CANCEL_PUSH, SETTINGS, GOAWAY, MAX_PUSH_ID, PUSH_PROMISE (server), HTTP/2 types) x ending {FIN, RESET(code) at a drawn byte offset, open} x role {server, client} x (one run in five) an endpoint limit of 300 bytes with trailers above it x the stream read whole or split() after 1-3 recv_data calls x drawn chunking, FIN timing, task order and spurious polls; non-trivial = the request stream carried at least one complete frame and at least 2 chunk deliveries or a RESET happened; distinct = distinct schedule signatures",
             real: &["h3::server::Connection/RequestResolver/RequestStream", "h3::client::Connection/SendRequest/RequestStream", "h3::connection::RequestStream", "h3::frame::FrameStream", "h3::qpack stateless codec", "h3 shared state / error propagation"],
             stub: &["QUIC transport (SimQuic)", "executor (simexec)", "peer (script of raw stream actions built with the reference codecs)", "application (follows the documented call pattern)"],
             assumptions: &["frame payloads in the sequences are well-formed, so exactly one RFC rule applies", "client receiving FIN or PUSH_PROMISE before/in a response is left unconstrained (the property speaks of servers)", "under RESET only prefix-consistency is demanded"],
@@ -539,6 +561,12 @@ impl Check for C03 {
     }
     fn run(&self, ctx: &RunCtx) -> RunOut {
         let role_server = draw(2) == 0;
+        // one run in five: the endpoint has a small field-section limit of its own and the trailers exceed it; what
+        // may and may not follow the trailers does not depend on that
+        BIG_TRAILERS.with(|b| b.set(draw(5) == 4));
+        if big_trailers() {
+            obs::count("probe.trailers_above_the_endpoints_limit");
+        }
         let max_len = if ctx.tier == Tier::Thorough { 9 } else { 6 };
         let seq = gen_seq(max_len, role_server);
         let all = encode_seq(&seq, role_server);
